@@ -73,6 +73,7 @@ def _has_cycle(names, arcs):
 
 
 def impl_fn(case):
+    impl.prime_twin_relisted(case)
     m = impl.build_uni(case)
     impl.prime_params(m, case, lambda mm: (mm.transition_matrix(), hash(mm.graph)))
     T = m.transition_matrix()
